@@ -30,6 +30,8 @@ pub struct DocApp {
 }
 
 pub struct State {
+    pub rt: tokio::runtime::Runtime,
+    pub saved: Vec<Option<DiameterMessage>>,
     pub dict: Arc<Dictionary>,
     pub msg: DiameterMessage,
     pub stack: Vec<Item>,
@@ -445,6 +447,8 @@ impl State {
         let dict = Arc::new(Dictionary::new(&[]));
         let builtin_xml: String = diameter::dictionary::DEFAULT_DICT_XML.to_string();
         State {
+            rt: tokio::runtime::Builder::new_current_thread().enable_all().start_paused(true).build().unwrap(),
+            saved: vec![],
             msg: DiameterMessage::new(CommandCode::CreditControl, ApplicationId::CreditControl, 0, 0, 0, dict.clone()),
             dict,
             stack: vec![],
@@ -899,6 +903,113 @@ impl State {
                 Some(b) => self.decode_line(&b),
                 None => "bad-op".into(),
             },
+            ["msave"] => {
+                let fresh = DiameterMessage::new(CommandCode::CreditControl, ApplicationId::CreditControl, 0, 0, 0, self.dict.clone());
+                let m = std::mem::replace(&mut self.msg, fresh);
+                self.saved.push(Some(m));
+                "ok".into()
+            }
+            ["mclear"] => {
+                self.saved.clear();
+                "ok".into()
+            }
+            ["sdec", n, evs] => {
+                let (n, evs) = match (n.parse::<usize>().ok(), crate::sio::parse_revs(evs)) {
+                    (Some(n), Some(e)) => (n, e),
+                    _ => return "bad-op".into(),
+                };
+                let dict = self.dict.clone();
+                self.rt.block_on(async move {
+                    let mut stream = crate::sio::Scripted::new(evs, vec![]);
+                    let mut out: Vec<String> = vec![];
+                    for _ in 0..n {
+                        let before = stream.0.lock().unwrap().consumed;
+                        let r = tokio::time::timeout(std::time::Duration::from_secs(3600), diameter::transport::Codec::decode(&mut stream, dict.clone())).await;
+                        let used = stream.0.lock().unwrap().consumed - before;
+                        match r {
+                            Err(_) => {
+                                out.push(format!("hang@{}", used));
+                                break;
+                            }
+                            Ok(Ok(m)) => out.push(format!("ok:{}@{}", dump_msg(&m), used)),
+                            Ok(Err(_)) => {
+                                out.push(format!("err@{}", used));
+                                break;
+                            }
+                        }
+                    }
+                    out.join(";")
+                })
+            }
+            ["senc", w] => {
+                let w = match crate::sio::parse_wevs(w) {
+                    Some(w) => w,
+                    None => return "bad-op".into(),
+                };
+                let msg = &self.msg;
+                self.rt.block_on(async move {
+                    let mut stream = crate::sio::Scripted::new(vec![], w);
+                    let r = tokio::time::timeout(std::time::Duration::from_secs(3600), diameter::transport::Codec::encode(&mut stream, msg)).await;
+                    let written = stream.0.lock().unwrap().written.clone();
+                    match r {
+                        Err(_) => format!("hang {}", hexd(&written)),
+                        Ok(Ok(())) => format!("ok {}", hexd(&written)),
+                        Ok(Err(_)) => format!("err {}", hexd(&written)),
+                    }
+                })
+            }
+            ["serve", hs, rd, wr] => {
+                let (rd, wr) = match (crate::sio::parse_revs(rd), crate::sio::parse_wevs(wr)) {
+                    (Some(a), Some(b)) => (a, b),
+                    _ => return "bad-op".into(),
+                };
+                // scripted handler results: `a<i>` hands out saved message i (once), `err` fails
+                let mut script: std::collections::VecDeque<Option<DiameterMessage>> = Default::default();
+                if *hs != "-" {
+                    for t in hs.split(',') {
+                        if t == "err" {
+                            script.push_back(None);
+                        } else if let Some(i) = t.strip_prefix('a').and_then(|x| x.parse::<usize>().ok()) {
+                            match self.saved.get_mut(i) {
+                                Some(slot) => script.push_back(slot.take()),
+                                None => return "bad-op".into(),
+                            }
+                        } else {
+                            return "bad-op".into();
+                        }
+                    }
+                }
+                let dict = self.dict.clone();
+                self.rt.block_on(async move {
+                    use std::cell::RefCell;
+                    use std::rc::Rc;
+                    let stream = crate::sio::Scripted::new(rd, wr);
+                    let calls: Rc<RefCell<Vec<String>>> = Default::default();
+                    let script = Rc::new(RefCell::new(script));
+                    let (c2, s2) = (calls.clone(), script.clone());
+                    let handler = move |req: DiameterMessage| {
+                        c2.borrow_mut().push(dump_msg(&req));
+                        let r = s2.borrow_mut().pop_front();
+                        async move {
+                            match r {
+                                Some(Some(m)) => Ok(m),
+                                _ => Err(diameter::Error::ServerError("scripted handler failure".into())),
+                            }
+                        }
+                    };
+                    let fut = diameter::transport::DiameterServer::verif_serve_stream(stream.clone(), handler, dict);
+                    let r = tokio::time::timeout(std::time::Duration::from_secs(3600), fut).await;
+                    let sh = stream.0.lock().unwrap();
+                    let mut end = match r {
+                        Err(_) => "hang".to_string(),
+                        Ok(_) => "done".to_string(),
+                    };
+                    if sh.writes_after_fail > 0 {
+                        end.push_str(&format!("!writes-after-failure={}", sh.writes_after_fail));
+                    }
+                    format!("calls=[{}] written={} end={}", calls.borrow().join(";"), hexd(&sh.written), end)
+                })
+            }
             ["fx", t, h] => match unhex(h) {
                 Some(b) => fx_line(t, &b).unwrap_or_else(|| "bad-op".into()),
                 None => "bad-op".into(),
